@@ -504,6 +504,40 @@ impl Engine for HostEngine {
             }
             obs.inc(if r2.is_ok() { "colliding_names_dispatched" } else { "colliding_registration_refused" });
         }
+        // ---- a host function failing below another host function: every level's error carries that function's name
+        if rng.chance(1, 10) {
+            let levels = rng.range(1, 3) as usize;
+            let mut m = Module::default();
+            // inner-most: a script function that calls the failing host function
+            m.functions.push(("lvl0".into(), Function { arguments: vec!["x".into()], cards: vec![un("ret", native("fail", vec![]))] }));
+            for k in 1..=levels {
+                let callee: Card = CardBody::Function(format!("lvl{}", k - 1)).into();
+                let c = match rng.below(3) {
+                    0 => native("apply1", vec![callee, read("x")]),
+                    1 => dyncall(CardBody::NativeFunction("apply1".into()).into(), vec![callee, read("x")]),
+                    _ => native("apply1", vec![closure(&["y"], vec![un("ret", call(&format!("lvl{}", k - 1), vec![read("y")]))]), read("x")]),
+                };
+                m.functions.push((format!("lvl{k}"), Function { arguments: vec!["x".into()], cards: vec![un("ret", c)] }));
+            }
+            m.functions.insert(0, ("main".into(), Function { arguments: vec![], cards: vec![set("_", nil()), set("_", call(&format!("lvl{levels}"), vec![int(1)]))] }));
+            let program = match compile(m, CompileOptions::new()) {
+                Ok(p) => p,
+                Err(e) => return Verdict::Inconclusive { reason: format!("harness program does not compile: {e}") },
+            };
+            let mut vm = new_vm(&cfg, &[]);
+            let got = match vm.run(&program) {
+                Ok(()) => return viol("nested-failure:no-error", "a host function failed below other host functions, but the run succeeded".into()),
+                Err(e) => err_kind(&e.payload),
+            };
+            let mut want = "TaskFailure[fail:InvalidArgument]".to_string();
+            for _ in 0..levels {
+                want = format!("TaskFailure[apply1:{want}]");
+            }
+            if got != want {
+                return viol("nested-failure:chain", format!("host function `fail` failed below {levels} level(s) of `apply1`: the error is {got}, every level should carry its function's name: {want}"));
+            }
+            obs.inc("nested_host_failures_checked");
+        }
         // ---- re-entry scenarios with a known answer
         if rng.chance(1, 3) {
             let callee = *rng.pick(&["add2", "early", "nested", "closure", "native"]);
